@@ -47,7 +47,7 @@ def pwl_kernel(rng, nk, units, mono, kclass=None):
   elif kclass == "zeros":
     w[1:] = 0.0
   if units > 1 and kclass not in ("ints",):
-    w = w * np.array([1.0, 10.0, 0.1])[:units][None, :]
+    w = w * np.array([1.0, 10.0, 0.1, 3.0])[:units][None, :]
   return kclass, w.astype(np.float32)
 
 
